@@ -221,8 +221,9 @@ fn check_alt(
     deep: bool,
     completions: &FpSet,
     warm: Option<&Proof>,
+    cache: CacheCfg,
 ) {
-    let (mut rc, out) = Core::from_image(img.clone(), CacheCfg::Off);
+    let (mut rc, out) = Core::from_image(img.clone(), cache);
     if !out.is_ok() {
         return;
     }
@@ -260,7 +261,7 @@ fn check_alt(
         let after = observe(rc.c(), &sc.hp, &sc.gp);
         drop(rc.core.take());
         let img2 = rc.image();
-        let (mut rc2, out2) = Core::from_image(img2.clone(), CacheCfg::Off);
+        let (mut rc2, out2) = Core::from_image(img2.clone(), cache);
         let after2 = if out2.is_ok() { Some(observe(rc2.c(), &sc.hp, &sc.gp)) } else { None };
         if !out2.is_ok() {
             viol = Some(("open-fails-after-altered-proof".into(), out2.brief()));
@@ -320,12 +321,12 @@ fn check_alt(
     if let Some((clause, detail)) = viol {
         rep.violate(
             &clause,
-            format!("alt={} req={}", alt.class, c03_req_sig(req)),
+            format!("alt={} req={}{}", alt.class, c03_req_sig(req), if cache == CacheCfg::Off { "" } else { " cache=on" }),
             format!(
                 "writer [{}], replica(len {}, held {:?}), honest request {}, alteration: {} -> {}: {}",
                 hist_brief(whist), rm.len, rm.held, req_brief(req), alt.desc, verdict, detail
             ),
-            json!({"prop": "C04", "what": "alt", "writer": whist, "req": req, "alt": alt.desc,
+            json!({"prop": "C04", "what": "alt", "writer": whist, "req": req, "alt": alt.desc, "cache": format!("{cache:?}"),
                    "replica": {"len": rm.len, "byte_len": rm.byte_len, "held": rm.held}, "image": c03::image_hex(img)}),
             rm.held.len() * 10 + rm.len as usize + whist.len(),
         );
@@ -349,6 +350,7 @@ pub fn sweep(
     states: &[(Image, ReplicaModel)],
     bits: Bits,
     seeks: Seeks,
+    cache: CacheCfg,
     only_desc: Option<&str>,
     rep: &Report,
     stats: &Stats,
@@ -403,7 +405,7 @@ pub fn sweep(
                             nalt += 1;
                             classes.insert(crate::env::fp128(&[alt.class.as_bytes(), c03_req_sig(&req).as_bytes(), &[rm.len as u8, rm.held.len() as u8]]));
                             crate::sup::tick();
-                            check_alt(&mut w, whist, pairs, img, rm, &sc, &req, alt, rep, &mut local, true, completions, None);
+                            check_alt(&mut w, whist, pairs, img, rm, &sc, &req, alt, rep, &mut local, true, completions, None, cache);
                         }
                     }
                 }
@@ -476,7 +478,7 @@ pub fn sweep_live(whist: &[Op], states: &[(Image, ReplicaModel)], bits: Bits, re
                                 nalt += 1;
                                 classes.insert(crate::env::fp128(&[b"live", alt.class.as_bytes(), c03_req_sig(&req).as_bytes(), &[m1.len as u8, m1.held.len() as u8]]));
                                 crate::sup::tick();
-                                check_alt(&mut w, whist, pairs, img, &m1, &sc, &req, alt, rep, &mut local, false, completions, Some(&pw));
+                                check_alt(&mut w, whist, pairs, img, &m1, &sc, &req, alt, rep, &mut local, false, completions, Some(&pw), CacheCfg::Off);
                             }
                         }
                     }
@@ -521,9 +523,10 @@ pub fn run(tier: &str) -> i32 {
         let tmp = Report::new("C04", tier, "exploration"); // honest-run violations belong to C03
         let r = c03::saturate("C04", whist, vec![c03::empty_replica()], Seeks::None, true, false, &tmp, &stats, &g);
         nstates += r.kept.len();
-        sweep(whist, &r.kept, *bits, *seeks, None, &rep, &stats, &classes);
+        sweep(whist, &r.kept, *bits, *seeks, CacheCfg::Off, None, &rep, &stats, &classes);
         if c03::build_writer(whist).model.len() <= if quick { 4 } else { 6 } {
             sweep_live(whist, &r.kept, Bits::Few, &rep, &stats, &classes);
+            sweep(whist, &r.kept, Bits::Few, Seeks::None, CacheCfg::Default, None, &rep, &stats, &classes);
         }
         // growth: the writer appends k more blocks; every earlier replica state (which holds the
         // old head and its signature) receives the altered / forged proofs of the longer writer
@@ -536,7 +539,10 @@ pub fn run(tier: &str) -> i32 {
                 }
                 let upgraded: Vec<(Image, ReplicaModel)> = r.kept.iter().filter(|(_, m)| m.len == wn).cloned().collect();
                 nstates += upgraded.len();
-                sweep(&h2, &upgraded, Bits::Few, Seeks::None, None, &rep, &stats, &classes);
+                // with and without the node cache on the replica (a cache must never stand in for a check)
+                for cache in [CacheCfg::Off, CacheCfg::Default, CacheCfg::Tiny] {
+                    sweep(&h2, &upgraded, Bits::Few, Seeks::None, cache, None, &rep, &stats, &classes);
+                }
             }
         }
         shape_json.push(json!({"writer": hist_brief(whist), "bits": format!("{bits:?}"), "seek_proofs": format!("{seeks:?}"),
@@ -587,5 +593,6 @@ pub fn replay(case: &Value, rep: &Report) {
     let classes = FpSet::default();
     let desc = case["alt"].as_str().map(|s| s.to_string());
     // all bit positions so that any recorded description can be regenerated
-    sweep(&whist, &[(img, rm)], Bits::All, Seeks::Full, desc.as_deref(), rep, &stats, &classes);
+    let cache = match case["cache"].as_str() { Some("Default") => CacheCfg::Default, Some("Tiny") => CacheCfg::Tiny, _ => CacheCfg::Off };
+    sweep(&whist, &[(img, rm)], Bits::All, Seeks::Full, cache, desc.as_deref(), rep, &stats, &classes);
 }
